@@ -21,7 +21,8 @@ ID = 'C11'
 LEVEL = 'exploration'
 RULE = ('Runs are (a) phase permutations: one stub ternary configuration with 2-3 precipitate phases of different stability/energy/site, all constraints incl. the volume-change limit active, '
         'executed once per permutation of the phase list (2 or 6 worlds) and compared step by step; (b) element permutations on the real Ni-Cr-Al database: 4-8 seeded (x,T) points, six query kinds, '
-        'two solute orders; (c) paired diffusion runs with permuted element lists. Non-trivial = at least 10 compared steps with every phase nucleated (a), at least 10 compared query results (b), '
+        'two solute orders; (c) paired diffusion runs with permuted element lists (synthetic single-phase, real Ni-Cr-Al single-phase, real Fe-Cr-Ni two-phase homogenization); '
+        '(d) the homogenization mobility provider on Fe-Cr-Ni in both solute orders, 2-3 passes over the same points with one composition cache per order. Non-trivial = at least 10 compared steps with every phase nucleated (a), at least 10 compared query results (b), '
         'at least 10 compared steps (c); distinct = distinct record digest; signature = (kind, phases, iterator, constraints active).')
 ASSUMPTIONS = ['Summation order changes rounding and step-size selection amplifies it: equality is judged by the local-jump rule (tolerance 1e-6 over <= 250 steps, jump threshold 1e-9 after 1e-12).',
                'Element-order comparisons use cold caches (clearCache + removeCache=True) and 1e-8 relative / 1e-10 absolute tolerance.']
@@ -44,6 +45,20 @@ def generate(rng, tier, index):
         for _ in range(rng.randint(4, 8)):
             pts.append({'x': [round(rng.uniform(0.02, 0.16), 4), round(rng.uniform(0.02, 0.16), 4)], 'T': rng.choice([973.0, 1073.0, 1173.0, round(rng.uniform(900, 1250), 1)])})
         return {'kind': 'elements_thermo', 'points': pts}
+    if k == 6 and index % 20 == 6:
+        # mobility provider of the homogenization model on the real Fe-Cr-Ni database in both solute orders: several passes over the
+        # same points with one composition cache per order (later passes are cache hits)
+        pts = [{'x': [round(rng.uniform(0.1, 0.35), 4), round(rng.uniform(0.02, 0.15), 4)], 'T': rng.choice([1073.0, 1173.0, 1273.0])} for _ in range(rng.randint(2, 5))]
+        return {'kind': 'elements_mobility', 'points': pts, 'passes': rng.choice([2, 3]), 'cache': rng.random() < 0.85}
+    if k == 7 and index % 20 == 7:
+        # two-phase homogenization run on the real Fe-Cr-Ni database, solutes listed CR,NI vs NI,CR
+        from ksim import diffworld as DW
+        cfg = {'model': 'hom', 'provider': 'real_fecrni', 'all_elements': ['FE', 'CR', 'NI'], 'phases': ['FCC_A1', 'BCC_A2'], 'N': rng.randint(5, 8), 'L': 1e-4,
+               'profiles': {'CR': {'kind': rng.choice(['linear', 'step']), 'a': round(rng.uniform(0.12, 0.2), 4), 'b': round(rng.uniform(0.25, 0.35), 4), 'pos': 0.5},
+                            'NI': {'kind': rng.choice(['linear', 'step']), 'a': round(rng.uniform(0.08, 0.14), 4), 'b': round(rng.uniform(0.03, 0.07), 4), 'pos': 0.5}},
+               'bcs': {}, 'T': {'kind': 'const', 'T': rng.choice([1173.0, 1273.0])}, 'T_via': 'setter', 'record': True,
+               'hom': {'function': rng.choice(['wiener upper', 'wiener lower', 'lab']), 'eps': 0.05}}
+        return {'kind': 'elements_diffusion', 'cfg': cfg, 'ops': [{'op': 'solve', 'k': rng.choice([3, 5]), 'it': rng.choice(['euler', 'rk4'])} for _ in range(rng.choice([1, 2]))], 'perm': [1, 0]}
     if k in (6, 7):
         from ksim import diffworld as DW
         real = rng.random() < 0.08
@@ -84,6 +99,9 @@ def prepare(tier, recs):
     if any(r['kind'] == 'elements_diffusion' and r['cfg']['provider'] != 'synth' for r in recs):
         from ksim import diffworld as DW
         DW.preload(['real_nicral_fcc', 'real_nicral_fcc_perm'])
+    if any(r['kind'] == 'elements_mobility' or (r['kind'] == 'elements_diffusion' and r['cfg']['provider'] == 'real_fecrni') for r in recs):
+        from ksim import diffworld as DW
+        DW.preload(['real_fecrni', 'real_fecrni_perm'])
     if any(r['kind'] == 'elements_thermo' for r in recs) and not _ELEM:
         from kawin.thermo import MulticomponentThermodynamics
         from kawin.tests import datasets as ds
@@ -214,9 +232,39 @@ def elements_thermo(rec, F, cnt):
             cnt['compared'] += 6
 
 
+def elements_mobility(rec, F, cnt):
+    from kawin.diffusion.DiffusionParameters import computeMobility, HashTable
+    from ksim import diffworld as DW
+    tA, tB = DW.real_therm('real_fecrni'), DW.real_therm('real_fecrni_perm')
+    for t in (tA, tB):
+        t.clearCache()
+    hA, hB = (HashTable(), HashTable()) if rec.get('cache', True) else (None, None)
+    ctx = dict(what='mobility')
+    for k in range(rec['passes']):
+        for pt in rec['points']:
+            x = np.array(pt['x'], dtype=float)
+            a = computeMobility(tA, np.array([x]), np.array([pt['T']]), hA)
+            b = computeMobility(tB, np.array([x[::-1]]), np.array([pt['T']]), hB)
+            where = f'pass {k} at x(CR,NI)={pt["x"]} T={pt["T"]}'
+            if list(a.phases[0]) != list(b.phases[0]):
+                F.add('C11.element_order', f'{where}: stable phases {list(a.phases[0])} vs {list(b.phases[0])}', **ctx)
+                continue
+            perm_close(a.phase_fractions[0], b.phase_fractions[0], f'phase fractions, {where}', F, ctx, rtol=1e-7, atol=1e-9)
+            # columns: FE, CR, NI in order A and FE, NI, CR in order B
+            perm_close(np.asarray(a.mobility[0])[:, [0, 2, 1]], b.mobility[0], f'per-phase mobilities, {where}', F, ctx, rtol=1e-6, atol=0)
+            perm_close(np.asarray(a.chemical_potentials[0])[[0, 2, 1]], b.chemical_potentials[0], f'chemical potentials, {where}', F, ctx, rtol=1e-7, atol=1e-4)
+            cnt['compared'] += 3
+            if k > 0:
+                cnt['cache_hit_passes'] = cnt.get('cache_hit_passes', 0) + 1
+
+
 def execute(rec):
     F = core.Failures()
     D = core.Digest()
+    if rec['kind'] == 'elements_mobility':
+        cnt = {'compared': 0}
+        elements_mobility(rec, F, cnt)
+        return core.result(F, sig='elements_mobility:' + ('cache' if rec.get('cache', True) else 'nocache'), nontrivial=cnt['compared'] >= 6, counters=cnt, digest='')
     if rec['kind'] == 'elements_thermo':
         cnt = {'compared': 0}
         elements_thermo(rec, F, cnt)
@@ -246,6 +294,13 @@ def execute(rec):
 
 
 def shrink_candidates(rec):
+    if rec['kind'] == 'elements_mobility':
+        for c in core.ddmin_candidates(rec['points']):
+            if c:
+                r = copy.deepcopy(rec); r['points'] = c; yield r
+        if rec['passes'] > 2:
+            r = copy.deepcopy(rec); r['passes'] = 2; yield r
+        return
     if rec['kind'] == 'elements_thermo':
         for c in core.ddmin_candidates(rec['points']):
             if c:
